@@ -43,30 +43,71 @@ func (c09Sealer) Seal(dst, src []byte, _ protocol.PacketNumber, _ []byte) []byte
 func (c09Sealer) EncryptHeader(_ []byte, _ *byte, _ []byte) {}
 func (c09Sealer) Overhead() int                             { return c09Tag }
 
-type c09Seals struct{}
+// c09Seals: only Initial keys at first; later (retransmission phase, coalescing mode) Handshake and
+// 1-RTT keys as well.
+type c09Seals struct{ later bool }
 
-func (c09Seals) GetInitialSealer() (handshake.LongHeaderSealer, error) { return c09Sealer{}, nil }
-func (c09Seals) GetHandshakeSealer() (handshake.LongHeaderSealer, error) {
+func (*c09Seals) GetInitialSealer() (handshake.LongHeaderSealer, error) { return c09Sealer{}, nil }
+func (s *c09Seals) GetHandshakeSealer() (handshake.LongHeaderSealer, error) {
+	if s.later {
+		return c09Sealer{}, nil
+	}
 	return nil, handshake.ErrKeysNotYetAvailable
 }
-func (c09Seals) Get0RTTSealer() (handshake.LongHeaderSealer, error) {
+func (*c09Seals) Get0RTTSealer() (handshake.LongHeaderSealer, error) {
 	return nil, handshake.ErrKeysNotYetAvailable
 }
-func (c09Seals) Get1RTTSealer() (handshake.ShortHeaderSealer, error) {
+func (s *c09Seals) Get1RTTSealer() (handshake.ShortHeaderSealer, error) {
+	if s.later {
+		return c09Sealer1RTT{}, nil
+	}
 	return nil, handshake.ErrKeysNotYetAvailable
+}
+
+type c09Sealer1RTT struct{ c09Sealer }
+
+func (c09Sealer1RTT) KeyPhase() protocol.KeyPhaseBit { return protocol.KeyPhaseZero }
+
+// c09Frames is a framer holding n nine-byte control frames for the 1-RTT packet.
+type c09Frames struct{ n int }
+
+func (f *c09Frames) HasData() bool { return f.n > 0 }
+func (f *c09Frames) Append(fr []ackhandler.Frame, s []ackhandler.StreamFrame, maxLen protocol.ByteCount, _ monotime.Time, v protocol.Version) ([]ackhandler.Frame, []ackhandler.StreamFrame, protocol.ByteCount) {
+	var l protocol.ByteCount
+	for f.n > 0 {
+		pf := &wire.PathResponseFrame{}
+		if l+pf.Length(v) > maxLen {
+			break
+		}
+		fr = append(fr, ackhandler.Frame{Frame: pf})
+		l += pf.Length(v)
+		f.n--
+	}
+	return fr, s, l
 }
 
 type c09PN struct {
 	next   protocol.PacketNumber
 	lens   []protocol.PacketNumberLen
 	popped int
+	other  map[protocol.EncryptionLevel]protocol.PacketNumber // Handshake / 1-RTT spaces
 }
 
-func (m *c09PN) PeekPacketNumber(protocol.EncryptionLevel) (protocol.PacketNumber, protocol.PacketNumberLen) {
+func (m *c09PN) PeekPacketNumber(l protocol.EncryptionLevel) (protocol.PacketNumber, protocol.PacketNumberLen) {
+	if l != protocol.EncryptionInitial {
+		return m.other[l], protocol.PacketNumberLen2
+	}
 	return m.next, m.lens[min(m.popped, len(m.lens)-1)]
 }
 
-func (m *c09PN) PopPacketNumber(protocol.EncryptionLevel) protocol.PacketNumber {
+func (m *c09PN) PopPacketNumber(l protocol.EncryptionLevel) protocol.PacketNumber {
+	if l != protocol.EncryptionInitial {
+		if m.other == nil {
+			m.other = map[protocol.EncryptionLevel]protocol.PacketNumber{}
+		}
+		m.other[l]++
+		return m.other[l] - 1
+	}
 	pn := m.next
 	m.next++
 	m.popped++
@@ -95,6 +136,7 @@ type c09Env struct {
 	DCIDLen  int
 	Scramble bool // plain packer only: anti-DPI scrambling on
 	Parts    int  // the ClientHello is written in this many pieces
+	Coalesce bool // retransmission phase: Handshake and 1-RTT keys exist, with data to send at both levels
 }
 
 // c09ParseInitial reads one Initial packet produced with the pass-through sealer and returns
@@ -145,6 +187,41 @@ func c09ParseInitial(d []byte) (payload []byte, total int, errs string) {
 	return d[i+pnLen : end-c09Tag], end, ""
 }
 
+// c09CheckCoalesced: the packets the packer says it coalesced behind the Initial packet (which ends at
+// offset end) must follow it back to back, each as long as the packer recorded; whatever remains of the
+// datagram must be zero padding.
+func c09CheckCoalesced(p *coalescedPacket, end int) string {
+	d := p.buffer.Data
+	at := end
+	for _, lp := range p.longHdrPackets[1:] {
+		if at >= len(d) {
+			return fmt.Sprintf("%s packet recorded, datagram ends at %d", lp.header.Type, len(d))
+		}
+		if d[at]&0x80 == 0 {
+			return fmt.Sprintf("byte %d after the previous packet is 0x%02x, not the long header of the %s packet (padding in front of a coalesced packet?)", at, d[at], lp.header.Type)
+		}
+		at += int(lp.length)
+	}
+	if sp := p.shortHdrPacket; sp != nil {
+		if at >= len(d) {
+			return fmt.Sprintf("1-RTT packet recorded, datagram ends at %d", len(d))
+		}
+		if d[at]&0xc0 != 0x40 {
+			return fmt.Sprintf("byte %d after the previous packet is 0x%02x, not a short header (padding in front of the coalesced 1-RTT packet?)", at, d[at])
+		}
+		at += int(sp.Length)
+	}
+	if at > len(d) {
+		return fmt.Sprintf("recorded packet lengths add up to %d, datagram has %d bytes", at, len(d))
+	}
+	for i := at; i < len(d); i++ {
+		if d[i] != 0 {
+			return fmt.Sprintf("byte %d behind the last packet is 0x%02x, not padding", i, d[i])
+		}
+	}
+	return ""
+}
+
 type c09FlightResult struct {
 	Payloads [][]byte
 	Sizes    []int
@@ -152,6 +229,8 @@ type c09FlightResult struct {
 	// the flight's datagrams are declared lost, then the packer is asked for packets again
 	LostDgrams   []int
 	RetxPayloads [][]byte
+	Coalesced    int // retransmission datagrams in which other packets follow the Initial packet
+	OtherDgrams  int
 	RetxErr      error
 	Err          error
 	ParseErr     string
@@ -173,15 +252,18 @@ func c09Pack(spec *QUICSpec, ch []byte, env c09Env, rng *rand.Rand) (res c09Flig
 		dcid[i] = byte(i + 1)
 	}
 	destConnID := protocol.ParseConnectionID(dcid)
+	seals := &c09Seals{}
+	hsStream := newCryptoStream()
+	frames := &c09Frames{}
 	pp := newPacketPacker(
 		protocol.ParseConnectionID([]byte{9, 8, 7, 6}),
 		func() protocol.ConnectionID { return destConnID },
 		initial,
-		newCryptoStream(),
+		hsStream,
 		pn,
 		newRetransmissionQueue(),
-		c09Seals{},
-		c09NoFrames{},
+		seals,
+		frames,
 		c09NoAcks{},
 		newDatagramQueue(func() {}, utils.DefaultLogger),
 		protocol.PerspectiveClient,
@@ -240,10 +322,21 @@ func c09Pack(spec *QUICSpec, ch []byte, env c09Env, rng *rand.Rand) (res c09Flig
 						}
 					}
 				}
+				if env.Coalesce {
+					// the server's flight arrived meanwhile: the client's Finished and some 1-RTT frames wait
+					// next to the Initial retransmission
+					seals.later = true
+					hsStream.Write(make([]byte, 36+rng.IntN(120)))
+					frames.n = 1 + rng.IntN(14)
+				}
 				for k := 0; k < 4*len(sentFrames)+8; k++ {
 					var rp *coalescedPacket
 					var err error
-					if k%2 == 0 {
+					probe := k%2 == 0
+					if env.Coalesce {
+						probe = !probe // the ordinary send path first: it is the one that coalesces
+					}
+					if probe {
 						rp, err = pk.PackPTOProbePacket(protocol.EncryptionInitial, protocol.ByteCount(env.MaxSize), false, now, protocol.Version1)
 					} else {
 						rp, err = pk.PackCoalescedPacket(false, protocol.ByteCount(env.MaxSize), now, protocol.Version1)
@@ -253,16 +346,35 @@ func c09Pack(spec *QUICSpec, ch []byte, env c09Env, rng *rand.Rand) (res c09Flig
 						return
 					}
 					if rp == nil {
-						if k%2 == 1 {
+						if !probe && (k > 0 || !env.Coalesce) {
 							return
 						}
 						continue
 					}
-					pl, _, perr := c09ParseInitial(rp.buffer.Data)
+					if len(rp.buffer.Data) > cap(rp.buffer.Data) || len(rp.buffer.Data) > int(protocol.MaxPacketBufferSize) {
+						res.RetxErr = fmt.Errorf("retransmission datagram of %d bytes exceeds the packet buffer", len(rp.buffer.Data))
+						rp.buffer.Release()
+						return
+					}
+					if len(rp.longHdrPackets) == 0 || rp.longHdrPackets[0].header.Type != protocol.PacketTypeInitial {
+						// a datagram without an Initial packet (Handshake / 1-RTT only): nothing for this property
+						res.OtherDgrams++
+						rp.buffer.Release()
+						continue
+					}
+					pl, end, perr := c09ParseInitial(rp.buffer.Data)
 					if perr != "" {
 						res.RetxErr = fmt.Errorf("retransmission packet unreadable: %s", perr)
 						rp.buffer.Release()
 						return
+					}
+					if cerr := c09CheckCoalesced(rp, end); cerr != "" {
+						res.RetxErr = fmt.Errorf("coalesced datagram malformed: %s", cerr)
+						rp.buffer.Release()
+						return
+					}
+					if len(rp.longHdrPackets) > 1 || rp.shortHdrPacket != nil {
+						res.Coalesced++
 					}
 					res.RetxPayloads = append(res.RetxPayloads, append([]byte(nil), pl...))
 					rp.buffer.Release()
@@ -388,6 +500,10 @@ func c09JudgeFlight(c *evlog.Case, rp *c09Rep, comp, inClass string, env c09Env,
 		}
 		c.Count("retransmission_phases", 1)
 		c.Count("retransmission_packets", int64(len(res.RetxPayloads)))
+		c.Count("retransmission_datagrams_coalesced", int64(res.Coalesced))
+		if env.Coalesce {
+			c.Count("retransmission_phases_with_later_keys", 1)
+		}
 	}
 	c09CountStats(c, st)
 	c.Count("datagrams_packed", int64(len(res.Payloads)))
@@ -413,6 +529,7 @@ func c09GenEnv(r *rand.Rand) c09Env {
 	default:
 		e.PNLens = []protocol.PacketNumberLen{protocol.PacketNumberLen(1 + r.IntN(4)), protocol.PacketNumberLen(1 + r.IntN(4)), protocol.PacketNumberLen(1 + r.IntN(4))}
 	}
+	e.Coalesce = r.IntN(3) == 0
 	return e
 }
 
